@@ -22,15 +22,24 @@
 // IssuerFromForwardedOrHost) serving two hosts: tokens minted through real flows under host A and host B are presented
 // under both hosts in both orders. JWT access tokens and ID tokens are the provider's tokens only for the issuer of
 // the request they are presented to; opaque and refresh tokens are grey across hosts.
+//
+// Part 4 (overlap.go): OVERLAPPING requests on one provider (static issuer, or a host-dependent issuer serving two hosts):
+// a request a (a token of the other issuer / a dead token / a live token / the owner's revocation) is parked at each of
+// its yield points in turn (internal/sched: the library's spans, storage calls, client getters) while a request m
+// (a live token of the other host or user, a dead token, a foreign revocation) is served completely; both answers are
+// judged on their own by the model of parts 1 and 3.
 package main
 
 import (
+	"time"
+
 	"verif/internal/ev"
 	"verif/internal/opdrv"
+	"verif/internal/sched"
 )
 
 // replay files carry one case number: histories use their index, forged-token cases forgedBase + index,
-// dynamic-issuer cases dynBase + index.
+// dynamic-issuer cases dynBase + index, overlap cases ovlBase + index.
 const forgedBase = 1_000_000
 
 func main() {
@@ -40,7 +49,10 @@ func main() {
 		"variant / caller kind / hint kind / requested type, token kind, issued via code|exchange, model state of the token(s)). part 2: per case a fresh " +
 		"world with live victims and the complete operator list (all single-bit flips, all truncations, ...); every request carrying a forged string is an " +
 		"evaluation; distinct = (router, operator). part 3: per case one provider with a host-dependent issuer strategy and two hosts; every presentation " +
-		"of a token at an endpoint under a host is an evaluation; distinct = (router, strategy, endpoint, token kind, own/other host, live/dead)")
+		"of a token at an endpoint under a host is an evaluation; distinct = (router, strategy, endpoint, token kind, own/other host, live/dead). " +
+		"part 4: per case one provider (static or host-dependent issuer) with live and dead tokens of two users; per pair kind two requests a, m: a alone, m alone, " +
+		"then a parked at EVERY yield point of its own trace while m is served; every answer (alone, parked, in-between, probe after a parked revocation) is an " +
+		"evaluation; distinct = (router, world, role, endpoint, token kind, own/other issuer, live/revoked/expired)")
 	run.Assume(
 		"vstore policy (DESIGN section 3): token look-ups are by id and compare the subject handed in - a bit flip in the subject half of an opaque token is refused by that comparison; introspection checks the audience before filling anything; RevokeToken refuses a foreign client with invalid_client",
 		"vstore policy: revoking a refresh token also kills the access token issued with it (RFC 7009 2.1 SHOULD); TerminateSession kills every access and refresh token of (subject, client), tokens issued afterwards start a new session",
@@ -54,6 +66,7 @@ func main() {
 		"introspection: the oracle's caller is the client the credential authenticates (assertion issuer / Basic user), never a form client_id sent next to it",
 		"an expired id_token_hint signed by the provider's key with the right iss / sub / azp is a logout hint like a valid one: a 302 answer means the (sub, azp) session is terminated",
 		"token exchange is judged one-directionally (a refused live token is counted only); revocation of an already dead token by anybody is counted only",
+		"overlapping requests: each answer is judged exactly as if the request had been served alone (the token's liveness and issuer do not change while the pair is in flight: the in-between request is a read, a token exchange or a foreign revocation, none of which may change any token's state); for a parked owner revocation the token is fresh and only the time after its 200 answer is judged; a request that cannot finish while the other one is parked is inconclusive, never a verdict",
 		"storage faults (vstore fault plan: plain error, wrapped context.DeadlineExceeded, oidc server_error) at a revocation or a logout: the answer is judged like any other - 200 at /revoke means the token is unusable from then on, 302 at /end_session means the session's tokens are unusable from then on; an error answer demands nothing (a failed vstore call has no effect; after a refused logout the storage monitor is consulted and the model follows it if the session ended anyway - counted, not judged)",
 	)
 	var mandatory []string
@@ -94,14 +107,19 @@ func main() {
 		}
 		mandatory = append(mandatory, "dynamic-issuer:first-host:A:"+rn, "dynamic-issuer:first-host:B:"+rn)
 	}
+	mandatory = append(mandatory, ovlMandatory()...)
 	run.Mandatory(mandatory...)
+	sched.Install()
 
 	nHist := run.N(2000, 60000)
 	nForged := run.N(32, 960)
 	nDyn := run.N(72, 1440)
+	nOvl := run.N(64, 960)
 	if rc := run.ReplayCase(); rc >= 0 {
 		// a replay runs one case only: the mandatory scenarios of a whole run cannot all be seen
-		if rc >= dynBase {
+		if rc >= ovlBase {
+			runOverlap(run, int(rc-ovlBase))
+		} else if rc >= dynBase {
 			runDynamic(run, int(rc-dynBase))
 		} else if rc >= forgedBase {
 			runForged(run, int(rc-forgedBase))
@@ -124,5 +142,11 @@ func main() {
 	ev.Parallel(nForged, 0, func(_ int, j int) {
 		runForged(run, j)
 	})
+	t4 := time.Now()
+	ev.Parallel(nOvl, 0, func(_ int, j int) {
+		runOverlap(run, j)
+	})
+	run.Extra("part4_wall_s", time.Since(t4).Seconds()) // information only
+	run.Extra("sched_points_total", sched.Points())
 	run.Finish()
 }
